@@ -84,7 +84,12 @@ func (h *connIDManager) add(f *wire.NewConnectionIDFrame) error {
 	}
 	// If the NEW_CONNECTION_ID frame is reordered, such that its sequence number is smaller than the currently active
 	// connection ID or if it was already retired, send the RETIRE_CONNECTION_ID frame immediately.
-	if f.SequenceNumber < max(h.activeSequenceNumber, h.highestProbingID) || f.SequenceNumber < h.highestRetired {
+	// A retransmitted frame for an ID that is in use (active, or bound to a probing path) is a duplicate, not a reordered frame.
+	inUse := f.SequenceNumber == h.activeSequenceNumber
+	for _, e := range h.pathProbing {
+		inUse = inUse || e.SequenceNumber == f.SequenceNumber
+	}
+	if !inUse && (f.SequenceNumber < h.activeSequenceNumber || f.SequenceNumber <= h.highestProbingID || f.SequenceNumber < h.highestRetired) {
 		h.queueControlFrame(&wire.RetireConnectionIDFrame{
 			SequenceNumber: f.SequenceNumber,
 		})
@@ -117,7 +122,7 @@ func (h *connIDManager) add(f *wire.NewConnectionIDFrame) error {
 		h.highestRetired = f.RetirePriorTo
 	}
 
-	if f.SequenceNumber == h.activeSequenceNumber {
+	if inUse {
 		return nil
 	}
 
